@@ -22,12 +22,12 @@ theorem strip_spec (name : List Char) (count : Int) :
     stripComponents name count = specStrip name count.toNat := by
   simp [stripComponents, stripLoop_spec]
 
-/-- **archive, exactness**: for every member list and strip count, `archive.Index` (as fixed) hands the builder
-    exactly one document per regular member whose stripped name is non-empty, in member order, with the member's
-    bytes -/
-theorem archive_docs_exact (strip : Int) (ms : List Member) :
+/-- **archive, exactness**: for every member list whose headers announce the true sizes and every strip count,
+    `archive.Index` (as fixed) hands the builder exactly one document per regular member whose stripped name is
+    non-empty, in member order, with the member's bytes -/
+theorem archive_docs_exact (strip : Int) (ms : List Member) (hh : lies ms = false) :
     index strip ms = .ok (specArchiveDocs strip ms) := by
-  simp only [index, indexLoop_spec]
+  simp only [index, indexLoop_spec, hh, Bool.false_eq_true, if_false]
   by_cases h : hasReg ms = true
   · simp [h]
   · have h' : hasReg ms = false := by simpa using h
@@ -41,9 +41,19 @@ theorem archive_docs_exact (strip : Int) (ms : List Member) :
       simp [this]
     simp [h', hnil]
 
-/-- **archive, totality**: no member list makes the (fixed) archive indexer panic or diverge -/
+/-- **archive, lying headers**: when some regular member's header announces another size than the data the archive
+    holds (a truncated download, a hostile header — any announced size, huge or negative), indexing returns an
+    error; the announced size is never used for anything but the comparison -/
+theorem index_lying_err (strip : Int) (ms : List Member) (hl : lies ms = true) :
+    index strip ms = .err "read" := by
+  simp [index, indexLoop_spec, hl]
+
+/-- **archive, totality**: no member list — whatever sizes its headers announce — makes the (fixed) archive indexer
+    panic or diverge -/
 theorem index_total (strip : Int) (ms : List Member) : (index strip ms).isOkOrErr = true := by
-  rw [archive_docs_exact]; rfl
+  by_cases hl : lies ms = true
+  · rw [index_lying_err strip ms hl]; rfl
+  · rw [archive_docs_exact strip ms (by simpa using hl)]; rfl
 
 /-- the defect that was fixed: before the fix the indexer panicked exactly on the archives without a regular
     member (empty, directories only, links only) -/
@@ -51,25 +61,33 @@ theorem indexOrig_panics_iff (strip : Int) (ms : List Member) :
     indexOrig strip ms = .panic "nil-builder-finish" ↔ (ms.all fun m => m.kind ≠ .reg) = true := by
   simp only [indexOrig, indexLoop_spec]
   by_cases h : hasReg ms = true
-  · simp only [h, if_true]
-    simp only [hasReg, List.any_eq_true] at h
-    obtain ⟨x, hx, hk⟩ := h
-    constructor
-    · intro hc; cases hc
-    · intro hall
+  · have hne : ¬ (ms.all fun m => decide (m.kind ≠ .reg)) = true := by
+      simp only [hasReg, List.any_eq_true] at h
+      obtain ⟨x, hx, hk⟩ := h
+      intro hall
       rw [List.all_eq_true] at hall
       have := hall x hx
       simp at this hk
       exact absurd hk this
+    by_cases hl : lies ms = true
+    · simp only [hl, if_true]
+      constructor
+      · intro hc; cases hc
+      · intro hall; exact absurd hall hne
+    · have hl' : lies ms = false := by simpa using hl
+      simp only [hl', Bool.false_eq_true, if_false, h, if_true]
+      constructor
+      · intro hc; cases hc
+      · intro hall; exact absurd hall hne
   · have h' : hasReg ms = false := by simpa using h
-    simp only [h']
+    simp only [h', lies_false_of_no_reg ms h', Bool.false_eq_true, if_false]
     constructor
     · intro _
       simp only [hasReg, List.any_eq_false] at h'
       rw [List.all_eq_true]
       intro x hx
       simpa using h' x hx
-    · intro _; rfl
+    · intro _; trivial
 
 /-- the full totality statement was false of the code before the fix -/
 theorem indexOrig_total_full_false : ¬ ∀ (strip : Int) (ms : List Member), (indexOrig strip ms).isOkOrErr = true := by
@@ -77,12 +95,19 @@ theorem indexOrig_total_full_false : ¬ ∀ (strip : Int) (ms : List Member), (i
   have := h 0 []
   simp [indexOrig, indexLoop, nextFile, Outcome.isOkOrErr] at this
 
-/-- **C15 for archives, as evaluated by the check**: the executable statement holds of the model's outcome -/
+/-- **C15 for archives, as evaluated by the check**: the executable statement holds of the model's outcome, for
+    honest archives (`checkArchive`) and for archives with lying size headers (`checkLyingArchive`) -/
 theorem C15_checkArchive (strip : Int) (ms : List Member) (render : ADoc → String) :
-    ∃ docs, index strip ms = .ok docs ∧
-      checkArchive ((specArchiveDocs strip ms).map render) "ok" (docs.map render) = true := by
-  refine ⟨_, archive_docs_exact strip ms, ?_⟩
-  simp [checkArchive, sameDocs]
+    (lies ms = false → ∃ docs, index strip ms = .ok docs ∧
+      checkArchive ((specArchiveDocs strip ms).map render) "ok" (docs.map render) = true) ∧
+    (lies ms = true → checkLyingArchive (index strip ms).cls = true) := by
+  constructor
+  · intro hh
+    refine ⟨_, archive_docs_exact strip ms hh, ?_⟩
+    simp [checkArchive, sameDocs]
+  · intro hl
+    rw [index_lying_err strip ms hl]
+    decide
 
 /-! ## documents: stored content -/
 
@@ -257,11 +282,14 @@ theorem ignore_comment_or_blank (l : List Char)
 example : stripComponents ['r', '/', 's', '/', 'm'] 1 = ['s', '/', 'm'] := by rw [strip_spec]; decide
 example : stripComponents ['a', '/', '/', 'b'] 1 = ['/', 'b'] := by rw [strip_spec]; decide
 example : stripComponents ['a'] 1 = [] := by rw [strip_spec]; decide
-example : index 1 [⟨.dir, ['t', '/'], []⟩, ⟨.reg, ['t', '/', 'a'], [104, 105]⟩, ⟨.symlink, ['t', '/', 'l'], []⟩,
-    ⟨.reg, ['R'], [1]⟩] = .ok [⟨['a'], [104, 105]⟩] := by rw [archive_docs_exact]; decide
-example : indexOrig 0 [⟨.dir, ['t', '/'], []⟩] = .panic "nil-builder-finish" :=
+example : index 1 [⟨.dir, ['t', '/'], [], 0⟩, ⟨.reg, ['t', '/', 'a'], [104, 105], 2⟩, ⟨.symlink, ['t', '/', 'l'], [], 0⟩,
+    ⟨.reg, ['R'], [1], 1⟩] = .ok [⟨['a'], [104, 105]⟩] := by rw [archive_docs_exact _ _ (by decide)]; decide
+/-- a member announcing 2^60 bytes while 2 are there: an error, not a crash -/
+example : index 0 [⟨.reg, ['b'], [1, 2], 1152921504606846976⟩] = .err "read" := index_lying_err _ _ (by decide)
+example : index 0 [⟨.reg, ['b'], [1, 2], -9223372036854775808⟩] = .err "read" := index_lying_err _ _ (by decide)
+example : indexOrig 0 [⟨.dir, ['t', '/'], [], 0⟩] = .panic "nil-builder-finish" :=
   (indexOrig_panics_iff _ _).mpr (by decide)
-example : index 0 [⟨.dir, ['t', '/'], []⟩] = .ok [] := by rw [archive_docs_exact]; decide
+example : index 0 [⟨.dir, ['t', '/'], [], 0⟩] = .ok [] := by rw [archive_docs_exact _ _ (by decide)]; decide
 
 
 example : (parseIgnoreLine ['v', 'e']).map (fun p => globMatch p ['v', 'e', '2', '/', 'x']) = some true := by
